@@ -146,13 +146,22 @@ def handle : P String := do
     if mode == 0 then pure (showVecs "V" r) else
     if !exchangeOk pe then pure "DEADLOCK" else pure (showVecs "V" (sync1 pe ords r))
   | "gapply2" =>
+    let alias ← nat; let transp ← nat
     let alpha ← rat; let (_, ps) ← decompP
     let ords ← many ps.length natList
     let mats ← many ps.length matP
     let xs ← vecsP ps.length
     let ys ← vecsP ps.length
     if !exchangeOk ps then pure "DEADLOCK" else
-    pure (showVecs "V" (gapply2 ps ords mats xs ys alpha))
+    pure (showVecs "V" (gapply2A (alias != 0) (transp != 0) ps ords mats xs ys alpha))
+  | "valias" =>
+    let bs ← nat; let a ← rat; let b ← rat; let (_, ps) ← decompP
+    let ords ← many ps.length natList
+    let ys ← vecsP ps.length
+    let pe := ps.map (Patch.expand bs)
+    if !exchangeOk pe then pure "DEADLOCK" else
+    let r := valiasLocal a b ys
+    pure s!"{showVecs "V" (sync1 pe ords r)} D {showRat (gdot pe r r)}"
   | "gdiag" =>
     let kind ← nat; let (_, ps) ← decompP
     let ords ← many ps.length natList
